@@ -244,6 +244,38 @@ Theorem C07_drop_water_iff_all_lines : forall (fok : string -> bool) (tab : deft
   ingest fok tab false (filter (fun l => negb (is_water_line2 fok l)) lines).
 Proof. exact drop_water_all. Qed.
 
+(* --drop-water, complete statement: for ALL line lists, with the flag the read is
+   loud or the atoms are exactly the NON-WATER coordinate lines of the first model
+   (water = residue name HOH or WAT in the columns the record is read from; TIP, SOL,
+   DOD ... are not waters), first listed per identity - whatever the serial numbers,
+   chains or positions of waters and non-waters *)
+Theorem C07_drop_water_complete : forall (fok : string -> bool) (tab : deftab) (lines : list string),
+  forallb chunk_ok lines = true ->
+  guard2 fok tab (filter (fun l => negb (is_water_line2 fok l)) lines) = true ->
+  if existsb (raises fok) lines
+  then ingest fok tab true lines = Raised "ValueError"
+  else exists rs, ingest fok tab true lines = Done rs /\
+         Permutation (map a_src (all_atoms rs))
+           (map strip (cols_read2 fok (filter (fun l => negb (is_water_line2 fok l)) lines))).
+Proof. exact drop_water_complete. Qed.
+
+(* record level: drop_water tests the residue name and nothing else *)
+Theorem C07_drop_water_by_residue_name : forall (a : atomrec) (recs : list rec),
+  (In (RAtom a) recs -> mem_str (a_resname a) water_names = false -> In (RAtom a) (drop_water recs)) /\
+  (tok0_ok a = true -> mem_str (a_resname a) water_names = true -> ~ In (RAtom a) (drop_water recs)).
+Proof. intros a recs. split; [apply drop_water_keeps | apply drop_water_removes]. Qed.
+
+(* a water and a non-water (and a TIP "water", and a later-model water) with the same
+   serial numbers: --drop-water removes the HOH only *)
+Example C07_drop_water_shared_serials :
+  guard2 py_float_ok wtab (filter (fun l => negb (is_water_line2 py_float_ok l)) w_dupserial) = true /\
+  existsb (raises py_float_ok) w_dupserial = false /\
+  map (fun a => (a_serial a, a_resname a))
+      (match ingest py_float_ok wtab true w_dupserial with Done rs => all_atoms rs | _ => [] end) =
+    [(1, "ALA"); (2, "ALA"); (2, "TIP")]%Z /\
+  serials_of (ingest py_float_ok wtab false w_dupserial) = [1; 2; 1; 2]%Z.
+Proof. exact dupserial_example. Qed.
+
 (* ---- records of the OTHER classes (HET, SSBOND, CONECT, CRYST1, SEQRES, ..., unknown
    names): [ingestG] is the ingest with their parsers' behaviour explicit as an
    oracle oerr (true = KeyError/ValueError: the name goes on errlist and suppresses
@@ -401,3 +433,6 @@ Print Assumptions C07_line_endings_nonvacuous.
 Print Assumptions C07_bom_irrelevant.
 Print Assumptions C07_bom_regression.
 Print Assumptions C07_line_endings_side_condition.
+Print Assumptions C07_drop_water_complete.
+Print Assumptions C07_drop_water_by_residue_name.
+Print Assumptions C07_drop_water_shared_serials.
